@@ -351,7 +351,7 @@ class Contract:
                  inline=(), inline_only=False, slice=None, class_attrs=None, writes=(), note="", shape_bound=4,
                  native=None, name=None, self_spec=None, max_shapes=60, crosscheck=True, refute=True, assumed=False,
                  native_call=None, cases_filter=None, gen=None, native_ok=True, compare_native=None, slice_note=None,
-                 not_decided=(), lemmas=None, ghost_after=None, ghost_on=(), finite=None, locate=None, curry=(), finite_native=None, lib=None, may_raise=(), abstract_nl=True, abstract_real=False, overrides=None, register=True, sum_axioms=False, writable_attrs=None, pre_execute=None):
+                 not_decided=(), lemmas=None, ghost_after=None, ghost_on=(), finite=None, locate=None, curry=(), finite_native=None, lib=None, may_raise=(), abstract_nl=True, abstract_real=False, overrides=None, register=True, sum_axioms=False, writable_attrs=None, pre_execute=None, reads_allowed=None):
         self.target = target
         self.props = list(props)
         self.params = dict(params or {})
@@ -387,6 +387,7 @@ class Contract:
         self.may_raise = tuple(may_raise)  # exception classes that are acceptable outcomes without a stated condition
         self.abstract_real = abstract_real
         self.writable_attrs = dict(writable_attrs or {})   # param -> attribute names that may be written (everything else of that object is frozen)
+        self.reads_allowed = reads_allowed  # {class name: attribute names that may be read}; every other attribute read of that class is a frame.read failure
         self.pre_execute = pre_execute    # hook(interp, mod, fnode, args) run before the body / slice (binds closures to live-in variables)
         self.sum_axioms = sum_axioms      # add the recursive definition and extensionality of SUM to the path condition
         self.overrides = dict(overrides or {})   # callee qualname -> contract used at call sites of THIS contract only
